@@ -168,7 +168,7 @@ let () =
                 let stw p = (match w with A -> p.p_a.n_st | B -> p.p_b.n_st) in
                 let k = int_of_nat (tick_calls (i () (stw !s2 = Waiting)) (stw !s1)) in
                 for _ = 1 to k do note (EPeerLost w); e1 (EPeerLost w); e2 (EPeerLost w); resync () done
-              | "pD" | "pL" | "pS" | "rl" | "xa" | "xu" -> failwith "op not supported with two groups"
+              | "pD" | "pL" | "pS" | "rl" | "xa" | "xu" | "xg" | "xh" -> failwith "op not supported with two groups"
               | _ -> List.iter (fun e -> note e; e1 e; e2 e; resync ()) (events_of_token tok));
              out := (show !s1 !t1 ^ "#" ^ show !s2 !t2) :: !out) ops;
            String.concat " " (List.rev !out)
@@ -188,12 +188,12 @@ let () =
           if String.length tok < 3 then failwith ("bad op " ^ tok);
           let w = who_of tok.[2] in
           (match String.sub tok 0 2 with
-           | "dn" | "up" | "de" | "xa" | "xu" ->
+           | "dn" | "up" | "de" | "xa" | "xu" | "xg" | "xh" ->
              (* only notifications for tracked interfaces reach AdjustPriority, and with the coalescing policy only
                 those that move the down count (dry run of the pure model step to see) *)
              let c = (match w with A -> fst cs | B -> snd cs) in
              let cnt_of st = (match w with A -> st.f_p.p_a.n_cnt | B -> st.f_p.p_b.n_cnt) in
-             let down = (String.sub tok 0 2 <> "up" && String.sub tok 0 2 <> "xu") in
+             let down = (String.sub tok 0 2 <> "up" && String.sub tok 0 2 <> "xu" && String.sub tok 0 2 <> "xh") in
              let (s', _) = fstep v cs !s (FCoarse (EIf (w, nat_of_int (arg tok), down))) in
              moved := (cnt_of s' <> cnt_of !s);
              if tracked c (nat_of_int (arg tok)) && (not c.c_coalesce || !moved) then learn w !stepno
@@ -230,6 +230,21 @@ let () =
                  let (e', tt) = sdecide sf !stl !s.f_p e in
                  ignore (fe (FCoarse e')); stl := ssync tt !s.f_p) (tick_events w i !s.f_p)
            | "rl" -> note (ESend w); finish w
+           | "xg" | "xh" ->
+             (* gap reader (harness header): the state seen between the call's first m.mu section and anything after
+                it is (down count, effective priority) AFTER the notification when update and adjustment are one
+                section (fix_ia), the new count with the OLD priority otherwise *)
+             let k = nat_of_int (arg tok) in
+             let c = (match w with A -> fst cs | B -> snd cs) in
+             let node st = (match w with A -> st.f_p.p_a | B -> st.f_p.p_b) in
+             let before = node !s in
+             ignore (fe (FCoarse (EIf (w, k, String.sub tok 0 2 = "xg"))));
+             if tracked c k then begin
+               let after = node !s in
+               let eff = if v.fix_ia then after.n_eff else before.n_eff in
+               probe := [(match w with A -> "a" | B -> "b") ^ ":gap=" ^ string_of_int (int_of_z after.n_cnt) ^ ","
+                         ^ string_of_int (int_of_z eff)]
+             end
            | "xa" | "xu" ->
              (* lock probe: is m.mu held when AdjustPriority is entered (only asked for tracked interfaces) *)
              let k = nat_of_int (arg tok) in
